@@ -17,6 +17,8 @@ use std::sync::Arc as Rc;
 thread_local! {
     pub static LAST_PANIC: RefCell<Option<String>> = const { RefCell::new(None) };
     static IN_CATCH: std::cell::Cell<u32> = const { std::cell::Cell::new(0) };
+    /// a panic raised by the harness's own code (location under src/), never a finding
+    pub static HARNESS_FAULT: RefCell<Option<String>> = const { RefCell::new(None) };
 }
 
 pub fn install_panic_hook() {
@@ -25,6 +27,14 @@ pub fn install_panic_hook() {
         if IN_CATCH.with(|c| c.get()) == 0 {
             // a panic outside a guarded API call is a harness error: say so loudly
             eprintln!("HARNESS PANIC: {}", msg);
+        }
+        let own = info.location().map(|l| l.file().starts_with("src/")).unwrap_or(false);
+        if own {
+            HARNESS_FAULT.with(|p| {
+                if p.borrow().is_none() {
+                    *p.borrow_mut() = Some(msg.clone())
+                }
+            });
         }
         LAST_PANIC.with(|p| *p.borrow_mut() = Some(msg));
     }));
@@ -674,6 +684,8 @@ impl<'a> Engine<'a> {
         let mut cache: Cache = HashMap::new();
         let mut end = TxEnd::Normal;
         let mut mutated = false;
+        let mut n_mut = 0u32;
+        let mut touched: std::collections::BTreeSet<Path> = Default::default();
         loop {
             let step = match self.next_step(&view, Some(rw), readers.len()) {
                 Some(s) => s,
@@ -681,6 +693,14 @@ impl<'a> Engine<'a> {
             };
             match &step {
                 Step::Commit => {
+                    if self.cfg.probe && rw && mutated {
+                        for p in touched.iter().take(3) {
+                            self.probe_bucket(&tx, &view, p, true);
+                        }
+                        if self.stop {
+                            break;
+                        }
+                    }
                     drop(cache);
                     self.do_commit(db, tx, rw, view, log0, readers);
                     return if self.stop { TxEnd::Stop } else { TxEnd::Normal };
@@ -702,6 +722,11 @@ impl<'a> Engine<'a> {
                     self.judge(&step, &got, &exp, rw);
                     if step.is_mutator() && rw {
                         mutated = true;
+                        if let Some(p) = step.path() {
+                            if !p.is_empty() && touched.len() < 8 {
+                                touched.insert(p.clone());
+                            }
+                        }
                     }
                     if self.stop {
                         break;
@@ -715,7 +740,11 @@ impl<'a> Engine<'a> {
                     } else if self.cfg.sweep && rw && step.is_mutator() {
                         self.sweep(&tx, &view, "sweep", &format!("after {}", step.name()), rw);
                     }
-                    if self.cfg.probe && rw && step.is_mutator() && !self.stop {
+                    if step.is_mutator() && rw {
+                        n_mut += 1;
+                    }
+                    // mid-transaction probing is costly: every 8th mutator (and before commit)
+                    if self.cfg.probe && rw && step.is_mutator() && !self.stop && n_mut % 8 == 1 {
                         if let Some(p) = step.path() {
                             let p = p.clone();
                             self.probe_bucket(&tx, &view, &p, true);
@@ -906,7 +935,7 @@ impl<'a> Engine<'a> {
             match catch(|| db.tx(false)) {
                 Ok(Ok(tx)) => {
                     let view = self.committed.clone();
-                    for p in paths.iter().filter(|p| !p.is_empty()).take(6) {
+                    for p in paths.iter().filter(|p| !p.is_empty()).take(3) {
                         self.probe_bucket(&tx, &view, p, false);
                         if self.stop {
                             break;
@@ -1027,6 +1056,9 @@ impl<'a> Engine<'a> {
 
     /// C08: enumerate seek keys and range bounds on one bucket.
     fn probe_bucket(&mut self, tx: &Tx, view: &MBucket, path: &Path, in_rw: bool) {
+        if path.is_empty() {
+            return;
+        }
         let mb = match view.resolve(path) {
             Ok(b) => b,
             Err(_) => return,
@@ -1111,7 +1143,7 @@ impl<'a> Engine<'a> {
             }
             // ranges: all pairs when small, otherwise a deterministic stride
             let kinds = [BoundKind::Unbounded, BoundKind::Included, BoundKind::Excluded];
-            let stride = (p.len() * p.len() / 150).max(1);
+            let stride = (p.len() * p.len() / 64).max(1);
             let mut idx = 0usize;
             for lo in &p {
                 for hi in &p {
